@@ -53,6 +53,11 @@ let () =
         Printf.printf "witness select_failure_head finishes=%s gone=%d\n" (b2s (sh_final f)) (int_of_nat (sh_gone f));
         let ls = run (ls_step false) ls_witness ls_init in
         Printf.printf "witness shutdown_vs_listener join_of_unstarted_thread=%s thread_created_after_shutdown=%s\n" (b2s (ls_badjoin ls)) (b2s (ls_late ls));
+        let hs = run (hs_step false) hs_witness hs_init in
+        let hen = List.exists (fun t -> enabled (hs_step false) (nat_of_int t) hs) [0; 1] in
+        Printf.printf "witness close_in_handshake state=%d final=%s some_thread_enabled=%s\n" (int_of_nat (hs_state hs)) (b2s (hs_final hs)) (b2s hen);
+        let hf = run (hs_step true) (hs_witness @ hs_finishing) hs_init in
+        Printf.printf "witness close_in_handshake_fix8 final=%s\n" (b2s (hs_final hf));
         let l = run (rc_step false false) rc_leak_witness rc_init in
         Printf.printf "witness thread_reclaim_head final=%s reclaimed=%d\n" (b2s (rc_final l)) (int_of_nat (rc_reclaimed l));
         let l6 = run (rc_step true false) (rc_leak_witness @ rc_finishing) rc_init in
